@@ -269,7 +269,8 @@ def run_inventory(ctx, rule, entries, table, partition=1, kinds=None, stop=None,
       ctx.note(f'{rule}: reviewed entry not needed on this tree (site gone or discharged by the engine): {k}')
   if floor_fns:
     ctx.floor(rule, f'functions in the closure of {label or "the entry points"}', len(pred), floor_fns)
-  if floor_sites:
+  if floor_sites and getattr(ctx, 'config', 'dev') == 'dev':
+    # (the release-like configuration has fewer sites: no overflow-check temporaries)
     ctx.floor(rule, f'panic/wrap-capable sites in the closure of {label or "the entry points"}', n_sites, floor_sites)
   ctx.extra.setdefault('inventory', {})[rule] = {
       'entries': sorted({norm(r) for r in roots}), 'functions': len(pred), 'sites': n_sites,
